@@ -8,7 +8,9 @@ SLOT="$1"; PATCH="$2"; shift 2
 M=/tmp/mv-$SLOT
 if [ "$PATCH" = "--remove" ]; then rm -rf "$M"; exit 0; fi
 mkdir -p "$M"
-rsync -a --delete --exclude target --exclude .git /repo/ "$M/repo/"
+# files restored by rsync keep their old modification time, which cargo would take for "not
+# changed since the last build": give every restored file a fresh time stamp
+rsync -a --delete --exclude target --exclude .git --out-format='%n' /repo/ "$M/repo/" | while IFS= read -r f; do [ -f "$M/repo/$f" ] && touch "$M/repo/$f"; done
 rsync -a --delete --exclude .build --exclude .git --exclude seeded --exclude evidence/replay --exclude fuzz /verif/ "$M/verif/" --exclude '/.build'
 sed -i "s|/repo/|$M/repo/|g" "$M/verif/harness/Cargo.toml" "$M/verif/harness/src/lib.rs" "$M/verif/harness/src/props/c01.rs"
 sed -i "s|cd /repo |cd $M/repo |" "$M/verif/check"
